@@ -174,10 +174,17 @@ fn interrupted(texts: &[String], replies: &[String], probes: &[String], base: &B
         term.line(line, &mut o);
         term.take();
     }
-    term.line("CONT", &mut o);
+    // the rest of the run gets the same instruction budget as the uninterrupted run (single
+    // stepping was only needed up to the break); a run that does not finish decides nothing
+    o.quantum = 1000;
+    o.max_calls = 2_000_000 / 1000 + 6000;
+    let end = term.line("CONT", &mut o);
     let s_ev = term.take();
     if let Some(m) = has_panic(&s_ev) {
         return Err(("panic".into(), m));
+    }
+    if end != End::Stopped {
+        return Ok(None);
     }
     let want = printed(&base.events);
     let got = format!("{}{}", printed(&p_ev), printed(&s_ev));
